@@ -319,7 +319,9 @@ def check_fd(case, ctx):
             for sgn in (+1, -1):
                 b = P.build(desc)
                 with torch.no_grad():
-                    b.leaves[j].reshape(-1)[e] += sgn * h
+                    # (logical C-order index: reshape(-1) of a non-contiguous leaf would be a copy)
+                    idx = tuple(int(x) for x in np.unravel_index(e, tuple(b.leaves[j].shape))) if b.leaves[j].ndim else ()
+                    b.leaves[j][idx] += sgn * h
                 b2 = P.run_nodes(desc["nodes"], list(b.leaves), P.DT[desc["dtype"]])
                 vals.append(torch.cat([b2[o].detach().reshape(-1) for o in desc["outputs"]]))
             fd = (vals[0] - vals[1]) / (2 * h)
